@@ -335,6 +335,10 @@ def create_for_folder_subcommand(
                     existing_history.get_relative_file_path(not_found_path)
                 )
                 not_found_path_hash = not_found_path_history.find_first_hash_entry_for_path(relative_not_found_path)
+                if not_found_path_hash is None:
+                    # recorded without any digest (a folder of a generation without directory hashes): there is
+                    # nothing to recognise it by
+                    continue
 
                 new_path_history, new_path_media_hash = None, None
                 for history, hash_list in session.new_hash_lists.items():
